@@ -9,9 +9,10 @@
 Gap classes:
   top      between the tokens of an instance outside its parameter list, and right after `(`/`,` of the parameter list
   aftval   between a top-level parameter and the `,`/`)` that follows it
-  agg      anywhere between the parentheses of an aggregate
+  agg      anywhere between the parentheses of a one-dimensional aggregate
+  agg2     anywhere between the parentheses of an aggregate of aggregates (kept as raw text by the library)
   sel      anywhere inside a typed parameter  NAME ( value )
-  cx       between the parts of an externally mapped instance (inside its outer parentheses)
+  cx       anywhere inside the outer parentheses of an externally mapped instance
 """
 import re
 from . import p21_gen as G
@@ -54,8 +55,14 @@ def dict_lines(schema, abstract=()):
     L.append(f"S SEL_E {t[0]}=ent:{t[0]} {t[1]}=ent:{t[1]}")
     L.append("S SEL_T LEN_T=real CNT_T=int")
     L.append(f"S SEL_M {t[0]}=ent:{t[0]} LEN_T=real")
-    for c in schema.complex_sets():
-        L.append("C " + " ".join(sorted(n.upper() for n in c)))
+    # what the matcher accepts for an ANDOR family: the root with any non-empty set of its members
+    import itertools
+    for e in schema.entities:
+        if e.andor_root:
+            subs = schema.subtypes(e.name)
+            for k in range(1, len(subs) + 1):
+                for c in itertools.combinations(subs, k):
+                    L.append("C " + " ".join(sorted(n.upper() for n in (e.name,) + c)))
     L.append("dict end")
     return L
 
@@ -75,12 +82,14 @@ def val_tokens(v, inner):
     if t == "ref":
         return [f"#{v[1]}"]
     if t == "aggr":
-        out = ["(", ("gap", "agg")]
+        # an aggregate of aggregates is kept as raw text by the library (SCLundefined): its gaps are a class of their own
+        cls = "agg2" if inner == "agg2" or any(x[0] == "aggr" for x in v[1]) else "agg"
+        out = ["(", ("gap", cls)]
         for i, x in enumerate(v[1]):
             if i:
-                out += [("gap", "agg"), ",", ("gap", "agg")]
-            out += val_tokens(x, "agg")
-        out += [("gap", "agg"), ")"]
+                out += [("gap", cls), ",", ("gap", cls)]
+            out += val_tokens(x, cls)
+        out += [("gap", cls), ")"]
         return out
     if t == "typed":
         return [v[1], ("gap", "sel"), "(", ("gap", "sel")] + val_tokens(v[2], "sel") + [("gap", "sel"), ")"]
@@ -104,7 +113,7 @@ def tokens(inst):
     if inst.is_complex:
         out += ["(", ("gap", "cx")]
         for n, vs in inst.parts:
-            out += [(("gap", "cx") if isinstance(x, tuple) and x[1] in ("top", "aftval") else x) for x in part_tokens(n, vs)]
+            out += [(("gap", "cx") if isinstance(x, tuple) else x) for x in part_tokens(n, vs)]
             out += [("gap", "cx")]
         out += [")"]
     else:
@@ -118,9 +127,12 @@ WS = ["", "", "", " ", "  ", "\n", "\n  ", "\t", " \r\n "]
 COMMENTS = ["/* c */", "/**/", "/* a * b / c */", "/*#9=X(1);*/", "/* ' */"[:0] + "/* q */", "/*\n multi\n line */", "/* ,) */"]
 
 
+P_COMMENT = 0.35
+
+
 def sep(rng, allow_comment):
     s = rng.choice(WS)
-    if allow_comment and rng.random() < 0.35:
+    if allow_comment and rng.random() < P_COMMENT:
         s += rng.choice(COMMENTS) + rng.choice(WS)
     return s
 
